@@ -96,7 +96,7 @@ def new_agg():
     return {"runs": 0, "nontrivial": 0, "steps": 0, "switches": 0, "stalls": 0, "vtime": 0.0,
             "probes": {}, "digests": set(), "sched_digests": set(), "pairs": set(),
             "aborts": {}, "viol": [], "findings": {}, "samples": [], "run_wall": 0.0,
-            "last_run": 0, "nviol": 0}
+            "last_run": 0, "nviol": 0, "locs": {}, "first_digests": {}}
 
 
 def fold(agg, lane, scn, res, run, wall):
@@ -116,6 +116,10 @@ def fold(agg, lane, scn, res, run, wall):
         agg["sched_digests"].add(res["sched_digest"])
     if len(agg["pairs"]) < 20000:
         agg["pairs"].update(tuple(p) for p in res.get("pairs", ()))
+    for loc, n in res.get("locs", {}).items():
+        agg["locs"][loc] = agg["locs"].get(loc, 0) + n
+    if run < 64:
+        agg["first_digests"][run] = "%s:%s:%s" % (scn_hash(scn), res["digest"], ",".join(vclasses(res)))
     for f in res.get("findings", ()):
         agg["findings"][f] = agg["findings"].get(f, 0) + 1
     if res["viol"]:
@@ -131,9 +135,10 @@ def fold(agg, lane, scn, res, run, wall):
 def merge(a, b):
     for kk in ("runs", "nontrivial", "steps", "switches", "stalls", "vtime", "run_wall", "nviol"):
         a[kk] += b[kk]
-    for kk in ("probes", "aborts", "findings"):
+    for kk in ("probes", "aborts", "findings", "locs"):
         for x, v in b[kk].items():
             a[kk][x] = a[kk].get(x, 0) + v
+    a["first_digests"].update(b["first_digests"])
     for kk in ("digests", "sched_digests", "pairs"):
         a[kk] |= b[kk]
     a["viol"].extend(b["viol"])
@@ -190,9 +195,11 @@ def digests_for(lane, seed, tier, sub, runs):
 def selftest_determinism(lane, seed, tier, n):
     """Same seeds twice in-process, once more in a fresh interpreter (other hash seed)."""
     problems = []
+    ref = {}
     for sub, _ in lane.subs(tier):
         runs = list(range(n))
         a = digests_for(lane, seed, tier, sub, runs)
+        ref[sub] = a
         b = digests_for(lane, seed, tier, sub, runs)
         if a != b:
             problems.append("in-process digests differ for sub-lane %s" % sub)
@@ -209,7 +216,7 @@ def selftest_determinism(lane, seed, tier, n):
         if p.returncode != 0 or c != a:
             problems.append("fresh-interpreter digests differ for sub-lane %s (rc=%s) %s"
                             % (sub, p.returncode, p.stderr[-300:]))
-    return problems
+    return problems, ref
 
 
 # ----------------------------------------------------------- minimisation
@@ -400,7 +407,7 @@ def do_check(lane, seed, tier, a):
     st = {"runs_checked": 0, "problems": []}
     if not a.no_selftest:
         n = 6 if tier == "quick" else 48
-        st["problems"] = selftest_determinism(lane, seed, tier, n)
+        st["problems"], st_ref = selftest_determinism(lane, seed, tier, n)
         st["runs_checked"] = n * len(lane.subs(tier)) * 3
         for p in st["problems"]:
             errors.append("non-deterministic: " + p)
@@ -431,6 +438,7 @@ def do_check(lane, seed, tier, a):
             else:
                 pinned.append({"id": f["id"], "status": "fixed", "regressed": False})
     # 2. exploration
+    st_ref = locals().get("st_ref", {})
     total = new_agg()
     per_sub = {}
     subs = [(sub, max(1, int(n * a.scale))) for sub, n in lane.subs(tier)]
@@ -443,6 +451,14 @@ def do_check(lane, seed, tier, a):
                         "nontrivial": agg["nontrivial"], "findings": dict(agg["findings"])}
         for v in agg["viol"]:
             v["sub"] = sub
+        # the same run indices executed in a forked worker among 15 siblings must give the
+        # digests the in-process self-test saw (third leg of the determinism proof)
+        for i, d in enumerate(st_ref.get(sub, [])):
+            if i in agg["first_digests"] and agg["first_digests"][i] != d:
+                errors.append("non-deterministic: run %d of sub-lane %s differs between the parallel batch "
+                              "and the in-process self-test" % (i, sub))
+                break
+        agg["first_digests"] = {}
         merge(total, agg)
     ev_extra, extra_viol, extra_cov = lane.extra_phases(seed, tier, a.jobs)
     for v in extra_viol:
@@ -513,6 +529,8 @@ def write_evidence(lane, seed, tier, total, per_sub, st, pinned, known_lines, ou
         "context_switches": total["switches"],
         "distinct_schedule_digests": len(total["sched_digests"]),
         "distinct_switch_pairs": len(total["pairs"]),
+        "distinct_preempted_source_lines": len(total["locs"]),
+        "most_preempted_source_lines": dict(sorted(total["locs"].items(), key=lambda kv: -kv[1])[:25]),
         "fault_and_probe_counts_fired": dict(sorted(total["probes"].items())),
         "thread_stalls_injected": total["stalls"],
         "run_outcomes": total["aborts"],
